@@ -61,7 +61,7 @@ type EventBus struct {
 	afterPublish     PublishHook
 	beforePublishCtx PublishHookContext
 	afterPublishCtx  PublishHookContext
-	wg               sync.WaitGroup
+	wg               asyncGroup
 
 	// Optional persistence fields (nil if not using persistence)
 	store                   EventStore
@@ -77,6 +77,40 @@ type EventBus struct {
 
 	// Optional observability (metrics & tracing)
 	observability Observability
+}
+
+// asyncGroup counts in-flight async handlers. It replaces sync.WaitGroup because
+// Publish (Add) may run concurrently with Wait, also while the counter is zero,
+// which sync.WaitGroup forbids (data race, "WaitGroup misuse" panics).
+type asyncGroup struct {
+	mu   sync.Mutex
+	cond *sync.Cond
+	n    int
+}
+
+// Add adds delta to the counter and wakes waiters when it reaches zero.
+func (g *asyncGroup) Add(delta int) {
+	g.mu.Lock()
+	g.n += delta
+	if g.n == 0 && g.cond != nil {
+		g.cond.Broadcast()
+	}
+	g.mu.Unlock()
+}
+
+// Done decrements the counter.
+func (g *asyncGroup) Done() { g.Add(-1) }
+
+// Wait blocks until the counter is zero.
+func (g *asyncGroup) Wait() {
+	g.mu.Lock()
+	if g.cond == nil {
+		g.cond = sync.NewCond(&g.mu)
+	}
+	for g.n != 0 {
+		g.cond.Wait()
+	}
+	g.mu.Unlock()
 }
 
 // TypeNamer is an optional interface that events can implement to provide
